@@ -388,3 +388,197 @@ def refkind(repo, schema, modules=None):
         raise AnalysisError(f"only {res.instances} Field-only attribute reads on path lookups found")
     res.analysed = ["compiler/front_end/*.py", "compiler/back_end/cpp/header_generator.py", "compiler/util/ir_data.py"]
     return res
+
+
+# --- R-ONEOFGUARD ------------------------------------------------------------------------------------------------
+ONEOF_REVIEWED = {
+    # (module, function, "<base>.<member>"): reason the member is always set at this site (reviewed by reading callers)
+    ("compiler/front_end/expression_bounds.py", "_set_integer_constraints_from_physical_type", "physical_type.atomic_type"):
+        "only called when expression.type is `integer`; type_check types a reference integer only from an atomic type "
+        "(array-typed fields and parameters are opaque)",
+    ("compiler/front_end/constraints.py", "_check_early_type_requirements_for_parameter_type", "physical_type.atomic_type"):
+        "type_check._annotate_parameter_type rejects array parameters ('Parameters cannot be arrays.') and the pipeline "
+        "stops before constraints",
+    ("compiler/front_end/constraints.py", "_check_physical_type_requirements", "type_ir.atomic_type"):
+        "documented precondition ('the given atomic type_ir'); both callers pass an atomic type: "
+        "_check_type_requirements_for_field returns early unless type_ir.has_field('atomic_type'), the parameter caller "
+        "runs after array parameters were rejected",
+    ("compiler/front_end/synthetics.py", "_add_anonymous_aliases", "field.type.atomic_type"):
+        "only for field.name.is_anonymous: module_ir creates anonymous fields for `bits:` blocks with an atomic type naming "
+        "the synthesised subtype",
+}
+
+
+ONEOF_MODULES = ("compiler/front_end/type_check.py", "compiler/front_end/expression_bounds.py",
+                 "compiler/front_end/symbol_resolver.py", "compiler/front_end/constraints.py",
+                 "compiler/front_end/attribute_checker.py", "compiler/front_end/synthetics.py", "compiler/util/ir_util.py",
+                 "compiler/back_end/cpp/header_generator.py", "compiler/front_end/write_inference.py")
+
+
+def oneofguard(repo, modules=ONEOF_MODULES):
+    """R-ONEOFGUARD (C16/C13): `Type` is a oneof of atomic_type / array_type.  Reading an attribute *through* one
+    member (`t.atomic_type.reference`) yields None.<attr> -> AttributeError when the other member is set, so in the
+    listed modules every such read must be dominated by a test that names the same base expression: `t.has_field(
+    "atomic_type")`, `t.which_type == "atomic_type"`, the negative forms with an early exit, an assert of either, or
+    the base being `ir_util.get_base_type(...)` (which strips the array layers).  Sites whose precondition is
+    established by a caller are listed in ONEOF_REVIEWED with the reason."""
+    res = RuleResult("R-ONEOFGUARD")
+    MEMBERS = ("atomic_type", "array_type")
+    OTHER = {"atomic_type": "array_type", "array_type": "atomic_type"}
+
+    def facts_of(test):
+        """(positive, negative): sets of (base, member) known when test is true / false."""
+        pos, neg = set(), set()
+        if isinstance(test, ast.Call) and isinstance(test.func, ast.Attribute) and test.func.attr == "has_field" and test.args \
+                and isinstance(test.args[0], ast.Constant) and test.args[0].value in MEMBERS:
+            b, mem = ast.unparse(test.func.value), test.args[0].value
+            pos.add((b, mem))
+            neg.add((b, OTHER[mem]))
+        elif isinstance(test, ast.Compare) and len(test.ops) == 1 and isinstance(test.left, ast.Attribute) \
+                and test.left.attr in ("which_type",) and isinstance(test.comparators[0], ast.Constant) \
+                and test.comparators[0].value in MEMBERS:
+            b, mem = ast.unparse(test.left.value), test.comparators[0].value
+            if isinstance(test.ops[0], ast.Eq):
+                pos.add((b, mem))
+                neg.add((b, OTHER[mem]))
+            elif isinstance(test.ops[0], ast.NotEq):
+                neg.add((b, mem))
+                pos.add((b, OTHER[mem]))
+        elif isinstance(test, ast.Call) and (call_name(test) or "").split(".")[-1] == "is_array" and len(test.args) == 1:
+            b = ast.unparse(test.args[0])          # ir_util.is_array(t) == t.has_field("array_type")
+            pos.add((b, "array_type"))
+            neg.add((b, "atomic_type"))
+        elif isinstance(test, ast.UnaryOp) and isinstance(test.op, ast.Not):
+            p, n = facts_of(test.operand)
+            pos, neg = n, p
+        elif isinstance(test, ast.BoolOp) and isinstance(test.op, ast.And):
+            for v in test.values:
+                pos |= facts_of(v)[0]
+        elif isinstance(test, ast.BoolOp) and isinstance(test.op, ast.Or):
+            for v in test.values:
+                neg |= facts_of(v)[1]
+        return pos, neg
+
+    for rel in modules:
+        m = repo.mod(rel)
+        for f in m.funcs.values():
+            def check_expr(e, known):
+                if isinstance(e, ast.BoolOp):
+                    k = set(known)
+                    for v in e.values:
+                        check_expr(v, k)
+                        p, n = facts_of(v)
+                        k |= p if isinstance(e.op, ast.And) else n
+                    return
+                if isinstance(e, ast.IfExp):
+                    p, n = facts_of(e.test)
+                    check_expr(e.test, known)
+                    check_expr(e.body, known | p)
+                    check_expr(e.orelse, known | n)
+                    return
+                if isinstance(e, ast.Attribute) and isinstance(e.ctx, ast.Load) and isinstance(e.value, ast.Attribute) \
+                        and e.value.attr in MEMBERS:
+                    base = ast.unparse(e.value.value)
+                    mem = e.value.attr
+                    res.instances += 1
+                    ok = (base, mem) in known or "get_base_type(" in base or "builder(" in base
+                    key = (m.rel, f.qualname, f"{base}.{mem}")
+                    if not ok and key not in ONEOF_REVIEWED:
+                        res.add(f"{m.rel}|{f.qualname}|{base}.{mem}", f"{f.qualname} reads `{ast.unparse(e)}` but nothing on this path "
+                                f"establishes that `{base}` holds its `{mem}` member: for the other kind of type the read is "
+                                "None.<attr> -> AttributeError (a traceback instead of a diagnostic)", m.rel, e.lineno, f.qualname)
+                    check_expr(e.value.value, known)
+                    return
+                for c in ast.iter_child_nodes(e):
+                    if not isinstance(c, (ast.FunctionDef, ast.Lambda)):
+                        check_expr(c, known)
+
+            def scan(stmts, known):
+                known = set(known)
+                for st in stmts:
+                    if isinstance(st, (ast.If, ast.While)):
+                        check_expr(st.test, known)
+                        p, n = facts_of(st.test)
+                        scan(st.body, known | p)
+                        scan(st.orelse, known | n)
+                        if isinstance(st, ast.If):
+                            if _terminates(st.body):
+                                known |= n
+                            if st.orelse and _terminates(st.orelse):
+                                known |= p
+                        continue
+                    if isinstance(st, ast.Assert):
+                        check_expr(st.test, known)
+                        known |= facts_of(st.test)[0]
+                        continue
+                    if isinstance(st, (ast.For, ast.With, ast.Try)):
+                        for fld in ("iter",):
+                            x = getattr(st, fld, None)
+                            if isinstance(x, ast.AST):
+                                check_expr(x, known)
+                        for blk in ("body", "orelse", "finalbody"):
+                            scan(getattr(st, blk, []) or [], known)
+                        for h in getattr(st, "handlers", []):
+                            scan(h.body, known)
+                        continue
+                    if isinstance(st, (ast.FunctionDef, ast.ClassDef)):
+                        continue
+                    check_expr(st, known)
+                    if isinstance(st, ast.Assign):
+                        # rebinding a name invalidates what was known about expressions rooted in it
+                        for t in st.targets:
+                            if isinstance(t, ast.Name):
+                                known = {(b, mm) for b, mm in known if b.split(".")[0] != t.id}
+                return known
+            scan(f.node.body, set())
+    res.analysed = list(modules)
+    return res
+
+
+def canonname(repo):
+    """R-CANONNAME (C13, C12): a canonical name is the pair (module_file, object_path).  A test that recognises a
+    *particular* definition by comparing a whole `object_path` with a literal (`tuple(x.object_path) == ("Flag",)`) must
+    also constrain `module_file` of the same name in the same condition; otherwise a definition with the same path in
+    another module is mistaken for it (an imported `enum Flag` typed as the prelude's boolean Flag).  Comparisons of a
+    path *element* with a `$`-name are exempt: user definitions cannot contain `$`."""
+    res = RuleResult("R-CANONNAME")
+    for m in repo.modules.values():
+        if not m.rel.startswith("compiler/"):
+            continue
+        for f in m.funcs.values():
+            parents = {}
+            for n in ast.walk(f.node):
+                for c in ast.iter_child_nodes(n):
+                    parents[id(c)] = n
+            for n in walk_no_nested_funcs(f.node):
+                if not (isinstance(n, ast.Compare) and len(n.ops) == 1 and isinstance(n.ops[0], (ast.Eq, ast.NotEq, ast.In, ast.NotIn))):
+                    continue
+                sides = [n.left, n.comparators[0]]
+                path_side = None
+                for s_ in sides:
+                    x = s_
+                    if isinstance(x, ast.Call) and call_name(x) in ("tuple", "list") and x.args:
+                        x = x.args[0]
+                    if isinstance(x, ast.Attribute) and x.attr == "object_path":
+                        path_side = x
+                if path_side is None:
+                    continue
+                other = [s_ for s_ in sides if path_side not in list(ast.walk(s_))]
+                lits = [c.value for o in other for c in ast.walk(o) if isinstance(c, ast.Constant) and isinstance(c.value, str)]
+                if not lits or all(v.startswith("$") for v in lits):
+                    continue
+                res.instances += 1
+                base = ast.unparse(path_side.value)
+                # the enclosing condition: climb through BoolOp/Not to the test expression
+                top = n
+                while isinstance(parents.get(id(top)), (ast.BoolOp, ast.UnaryOp)):
+                    top = parents[id(top)]
+                cond = ast.unparse(top)
+                if base + ".module_file" not in cond:
+                    res.add(f"{m.rel}|{f.qualname}|{lits[0]}", f"{f.qualname} recognises the definition {lits} by `{ast.unparse(n)}` alone: the "
+                            f"condition does not look at `{base}.module_file`, so a type with the same name in any other module "
+                            "(reachable through an import) is treated as this one", m.rel, n.lineno, f.qualname)
+    if res.instances < 1 and not res.findings:
+        raise AnalysisError("no object_path comparison with a definition name found (the Flag special case moved?)")
+    res.analysed = ["compiler/**/*.py"]
+    return res
